@@ -191,12 +191,24 @@ func (mv mapValue) IndexValue(iv Value) Value {
 	ir := reflect.ValueOf(iv.Interface())
 	kt := mr.Type().Key()
 	if ir.IsValid() && ir.Type().ConvertibleTo(kt) && ir.Type().Comparable() {
-		er := mr.MapIndex(ir.Convert(kt))
+		er := safeMapIndex(mr, ir.Convert(kt))
 		if er.IsValid() {
 			return ValueOf(er.Interface())
 		}
 	}
 	return nilValue
+}
+
+// safeMapIndex is MapIndex, except that a key which cannot be hashed (a
+// comparable type holding an unhashable dynamic value, such as [1]any{[]int{1}})
+// is simply not in the map instead of making the runtime panic.
+func safeMapIndex(m, key reflect.Value) (v reflect.Value) {
+	defer func() {
+		if recover() != nil {
+			v = reflect.Value{}
+		}
+	}()
+	return m.MapIndex(key)
 }
 
 func (mv mapValue) PropertyValue(iv Value) Value {
